@@ -22,7 +22,9 @@ func checkC07(c *Ctx) {
 	c.Rule("C07.R2", "GeoJSON decoder on malformed documents (wrong nesting, positions of 0/1/3 numbers, non-numbers, empty arrays, unknown types, nil): an error, never a panic — whatever mechanism (recover or error values) produces it")
 	c.Rule("C07.R3", "in decoder functions a value returned together with an error is not asserted, dereferenced, indexed, method-called or returned with a nil error before that error is tested")
 	c.Rule("C07.R4", "premise of the re-encode clause, by the typed-stream model of C05: what the WKB writer produces for the model geometries is what the reader consumes (counts = members that follow, members complete messages of their own, each in its announced byte order), so a value the decoder returned re-encodes to a message the decoder accepts")
+	c.Rule("C07.R5", "hex decoder on malformed texts, evaluated through the interpreter with wkb.Decode described by the stream model: the empty text, one-character texts, texts that are not hexadecimal or of odd length, every truncation of the text of a Point message and texts with trailing characters give an error; nothing panics; and (premise of the re-encode clause) the hex pair hands the WKB pair exactly the bytes the text stands for")
 	c07errflow(c)
+	c05hex(c, "C07.R5", "C07.R5")
 	// R4 (and the WKB half of R1/R2): the stream model of C05 — layouts agree, and every malformed
 	// message gives an error without a panic or an allocation sized by an announced count
 	c05model(c, "C07.R4", "C07.R4", "C07.R1")
@@ -44,6 +46,7 @@ func checkC07(c *Ctx) {
 		}
 	}
 	c.Floor("C07.R4", 14)
+	c.Floor("C07.R5", 1)
 	c.Floor("C07.R1", 1)
 	c.Floor("C07.R2", 1)
 	c.Floor("C07.R3", 2)
